@@ -114,10 +114,11 @@ static long ref_int(const char * s, rspan_t sp) {     /* what a decimal token de
     while (i < sp.off + sp.len && s[i] >= '0' && s[i] <= '9') { v = v * 10 + (s[i] - '0'); i++; }
     return neg ? -v : v;
 }
-static double ref_dbl(const char * s, rspan_t sp) {
-    char tmp[64];
-    int l = sp.len < 63 ? sp.len : 63;
-    memcpy(tmp, s + sp.off, (size_t) l); tmp[l] = 0;
+static double ref_dbl(const char * s, rspan_t sp) {       /* value of the token with the blanks around the exponent mark removed */
+    char tmp[96];
+    int l = 0, i;
+    for (i = 0; i < sp.len && l < 95; i++) if (s[sp.off + i] != ' ' && s[sp.off + i] != '\t') tmp[l++] = s[sp.off + i];
+    tmp[l] = 0;
     return strtod(tmp, NULL);
 }
 
@@ -232,7 +233,7 @@ out:
     free(expr);
 }
 
-static const char alpha[] = "12-.:,!@ A";
+static const char alpha[] = "12-.:,!@ AE+";
 
 int main(int argc, char ** argv) {
     int L, len, i;
@@ -249,7 +250,7 @@ int main(int argc, char ** argv) {
                 check_body(s, len, len >= 6 ? 4 : 9);
                 if ((mc_executed & 0xff) == 0) SCPI_ErrorClear(&ctx);
             }
-            for (i = len - 1; i >= 0; i--) { if (++idx[i] < 10) { s[i] = alpha[idx[i]]; break; } idx[i] = 0; s[i] = alpha[0]; }
+            for (i = len - 1; i >= 0; i--) { if (++idx[i] < 12) { s[i] = alpha[idx[i]]; break; } idx[i] = 0; s[i] = alpha[0]; }
             if (i < 0) break;
         }
     }
@@ -272,6 +273,20 @@ int main(int argc, char ** argv) {
             }
             mc_case_s[0] = (const unsigned char *) body; mc_case_n[0] = (size_t) o;
             check_body(body, o, 9);
+            SCPI_ErrorClear(&ctx);
+        }
+    }
+    {   /* long numbers, exponents with sign and with the blanks IEEE 488.2 allows, up to 12 entries */
+        static const char * nums[] = {"1.234567 E3", "1234.5678 E-2", "12345678 E1", "-0.000125 E4", "1E+2", "4E+1", "5E-1", "2.5e+0", "1.0e+1", "+.5", "123456789012", "0.000000001", "7"};
+        int a, b2, c2;
+        char body[256];
+        for (a = 0; a < 13; a++) for (b2 = 0; b2 < 13; b2++) for (c2 = 0; c2 < 13; c2++) {
+            int o;
+            if (!MC_CASE()) continue;
+            o = sprintf(body, "%s,%s:%s,%s,%s:%s", nums[a], nums[b2], nums[c2], nums[(a + b2) % 13], nums[c2], nums[a]);
+            mc_case_tag = "long-numbers"; mc_case_s[0] = (const unsigned char *) body; mc_case_n[0] = (size_t) o;
+            check_body(body, o, 6);
+            if ((a + b2 + c2) % 3 == 0) { o = sprintf(body, "@%s!%s:%s!%s,%s", nums[4 + a % 4], nums[12], nums[5], nums[4 + b2 % 4], nums[4 + c2 % 4]); check_body(body, o, 3); }
             SCPI_ErrorClear(&ctx);
         }
     }
